@@ -99,7 +99,8 @@ theorem onPacket_called {G : Progs} {o : Overlay} {envOf : Handler → Env P} {p
       ((hd.kind = .signed ∧ run (envOf hd) G.signed data = .called k p wd) ∨
        (hd.kind = .signedWd ∧ run (envOf hd) G.signedWd data = .called k p wd) ∨
        (hd.kind = .unsigned ∧ run (envOf hd) G.unsigned data = .called k p wd) ∨
-       (hd.kind = .unsignedWd ∧ run (envOf hd) G.unsignedWd data = .called k p wd)) := by
+       (hd.kind = .unsignedWd ∧ run (envOf hd) G.unsignedWd data = .called k p wd) ∨
+       (hd.kind = .raw ∧ discRaw (envOf hd) G.ezUnpackAuth G.rawCatches data = .called k p wd)) := by
   unfold onPacket at h
   split at h
   · cases h
@@ -129,7 +130,8 @@ theorem onPacket_handler {G : Progs} {o : Overlay} {envOf : Handler → Env P} {
       ((hd.kind = .signed ∧ out = run (envOf hd) G.signed data) ∨
        (hd.kind = .signedWd ∧ out = run (envOf hd) G.signedWd data) ∨
        (hd.kind = .unsigned ∧ out = run (envOf hd) G.unsigned data) ∨
-       (hd.kind = .unsignedWd ∧ out = run (envOf hd) G.unsignedWd data)) := by
+       (hd.kind = .unsignedWd ∧ out = run (envOf hd) G.unsignedWd data) ∨
+       (hd.kind = .raw ∧ out = discRaw (envOf hd) G.ezUnpackAuth G.rawCatches data)) := by
   unfold onPacket at h
   split at h
   · cases h
@@ -147,5 +149,162 @@ theorem onPacket_handler {G : Progs} {o : Overlay} {envOf : Handler → Env P} {
              obtain ⟨h1, h2⟩ := h
              subst h1
              simp [hmem, hk, h2])
+
+/-- unfolding of `on_packet` when the handler is one the model does not follow -/
+theorem onPacket_other {G : Progs} {o : Overlay} {envOf : Handler → Env P} {pl mo : Nat} {data : Bytes}
+    {hd : Handler} (h : onPacket G o envOf pl mo data = .other hd) :
+    hd ∈ o.handlers ∧
+      (hd.kind = .deprecated ∨ hd.kind = .cell ∨ hd.kind = .cellDirect ∨ hd.kind = .rawOther) := by
+  unfold onPacket at h
+  split at h
+  · cases h
+  · split at h
+    · cases h
+    · split at h
+      · cases h
+      · rename_i h' hf
+        have hmem : h' ∈ o.handlers := List.mem_of_find?_eq_some hf
+        split at h
+        all_goals first
+          | (cases h; done)
+          | (rename_i hk1 hk2 hk3 hk4 hk5
+             simp only [Dispatch.other.injEq] at h
+             subst h
+             refine ⟨hmem, ?_⟩
+             cases hkk : h'.kind <;> simp_all)
+
+/-- the raw handler never enters anything with a bare address -/
+theorem discRaw_not_calledAddr {E : Env P} {prog : List Op} {catches : Bool} {data : Bytes} {p : P}
+    {wd : Option Bytes} (hna : noAddrCall prog = true) (h : discRaw E prog catches data = .calledAddr p wd) :
+    False := by
+  have na : ∀ (E' : Env P) a b, run E' prog data ≠ .calledAddr a b := fun E' a b => runFrom_noAddrCall prog {} hna
+  unfold discRaw at h
+  simp only [newPeerKey] at h
+  cases h1 : run E prog data with
+  | returned kb p' =>
+    simp only [h1] at h
+    cases hpk : E.S.parse kb <;> simp [hpk] at h
+  | called a b c => simp [h1] at h
+  | calledAddr a b => exact na E a b h1
+  | stuck => simp [h1] at h
+  | rejected st =>
+    simp only [h1] at h
+    cases st with
+    | keyParse => simp at h
+    | keyField | decode | signature =>
+      cases catches with
+      | false => simp at h
+      | true =>
+        simp only [if_true] at h
+        cases h2 : run { E with decode := E.decodeAlt } prog data with
+        | returned kb p' =>
+          simp only [h2] at h
+          cases hpk : E.S.parse kb <;> simp [hpk] at h
+        | called a b c => simp [h2] at h
+        | calledAddr a b => exact na _ a b h2
+        | stuck => simp [h2] at h
+        | rejected st2 => simp [h2] at h
+
+/-! ### hypothesis bundles on the abstract scheme (explicit hypotheses of the theorems, never axioms) -/
+
+structure WellSized (S : Scheme) : Prop where
+  pos : ∀ kb k, S.parse kb = some k → 0 < S.sigLen k
+  le : ∀ kb k, S.parse kb = some k → S.sigLen k ≤ kb.length + 2
+
+def Canon (S : Scheme) : Prop := ∀ kb k, S.parse kb = some k → S.parse k = some k
+
+def NetOK (S : Scheme) (net : Bytes → Option Bytes) : Prop := ∀ kb k, net kb = some k → S.parse kb = some k
+
+/-- unforgeability, as a hypothesis about ONE key: everything that verifies under `k` is one of the messages `msgs`
+    that the holder of `k` signed -/
+def OnlySigned (S : Scheme) (k : Bytes) (msgs : List Bytes) : Prop := ∀ m s, S.verify k m s = true → m ∈ msgs
+
+/-- laws of an honest signer -/
+structure Honest (S : Signer) : Prop where
+  parse_pub : ∀ sk, S.parse (S.pub sk) = some (S.pub sk)
+  sign_len : ∀ sk m, (S.sign sk m).length = S.sigLen (S.pub sk)
+  sign_verifies : ∀ sk m, S.verify (S.pub sk) m (S.sign sk m) = true
+  sig_pos : ∀ sk, 0 < S.sigLen (S.pub sk)
+  pub_short : ∀ sk, (S.pub sk).length < 65536
+
+/-- what the property promises about one handler invocation with peer key `k` and payloads `p` decoded by `dec` -/
+def DeliveredBy (E : Env P) (dec : Bytes → Nat → Option P) (data k : Bytes) (p : P) : Prop :=
+  ∃ kb signed sg,
+    keyField E.strict data = some kb ∧          -- the key is the varlenH field at offset 23 of this datagram
+    E.S.parse kb = some k ∧                      -- the peer handed to the handler is exactly that key
+    data = signed ++ sg ∧ sg.length = E.S.sigLen k ∧   -- the datagram ends in a signature of that key's length
+    E.S.verify k signed sg = true ∧              -- valid over EVERY byte that precedes it
+    23 ≤ signed.length ∧                         -- which includes the overlay prefix and the message id
+    dec (signed.drop (2 + kb.length)) 23 = some p      -- and every byte the payload decoder reads
+
+/-- from "the generated signature check accepted the key field at 23" to the split of the datagram -/
+theorem checked_core {E : Env P} (hv : E.verifySig = Gen.verifySignature) (hS : WellSized E.S)
+    {data kb rem k : Bytes} {e : Nat} (hu : unpackVarlenH E.strict data 23 = some (kb, e))
+    (hver : E.verifySig E.S kb data = some (true, rem)) (hpk : E.S.parse kb = some k) :
+    ∃ signed sg, keyField E.strict data = some kb ∧ data = signed ++ sg ∧ sg.length = E.S.sigLen k ∧
+      E.S.verify k signed sg = true ∧ 23 ≤ signed.length ∧ rem = signed.drop (2 + kb.length) := by
+  have hg : Gen.verifySignature E.S kb data = refVerifySignature E.S kb data := rfl
+  rw [hv, hg] at hver
+  unfold refVerifySignature at hver
+  rw [hpk] at hver
+  simp only [Option.some.injEq, Prod.mk.injEq] at hver
+  have hkf : keyField E.strict data = some kb := by simp [keyField, hu]
+  have hpos := hS.pos kb k hpk
+  have hle := hS.le kb k hpk
+  have hlen := keyField_length hkf
+  have hn : E.S.sigLen k ≤ data.length := by omega
+  rw [slice_signed _ _ hpos, slice_sig _ _ hpos, slice_remainder _ _ _ hpos] at hver
+  obtain ⟨hsplit, hsl⟩ := split_at_sig data (E.S.sigLen k) hn
+  exact ⟨_, _, hkf, hsplit, hsl, hver.1, by simp; omega, hver.2.symm⟩
+
+/-- the three facts an honest `ezr_pack` output establishes at the receiver -/
+theorem honest_facts (S : Signer) (hH : Honest S) (E : Env P) (hES : E.S = S.toScheme)
+    (hv : E.verifySig = Gen.verifySignature) (sk : S.SK) (pfx : Bytes) (hpfx : pfx.length = 22) (m : UInt8)
+    (body : Bytes) :
+    let data := Gen.ezrPack S sk pfx m body true
+    ∃ rem, unpackVarlenH E.strict data 23 = some (S.pub sk, 23 + 2 + (S.pub sk).length) ∧
+      E.verifySig E.S (S.pub sk) data = some (true, rem) ∧ rem.drop 23 = body ∧
+      E.S.parse (S.pub sk) = some (S.pub sk) := by
+  intro data
+  have hl := hH.pub_short sk
+  let pub := S.pub sk
+  let packet : Bytes := pfx ++ [m] ++ (packVarlenH pub ++ body)
+  let sg := S.sign sk packet
+  have hdata : data = packet ++ sg := by
+    simp [data, Gen.ezrPack, Gen.ezPack, packet, sg, pub]
+  rw [hdata]
+  have hn : sg.length = S.sigLen pub := hH.sign_len sk packet
+  have hpos : 0 < S.sigLen pub := hH.sig_pos sk
+  have hdrop : (packet ++ sg).drop 23 =
+      UInt8.ofNat (pub.length / 256) :: UInt8.ofNat (pub.length % 256) :: (pub ++ body ++ sg) := by
+    have h23 : (pfx ++ [m]).length = 23 := by simp [hpfx]
+    have : packet ++ sg = (pfx ++ [m]) ++ (packVarlenH pub ++ body ++ sg) := by simp [packet]
+    rw [this, List.drop_left' h23]
+    simp [packVarlenH]
+  have hU : unpackVarlenH E.strict (packet ++ sg) 23 = some (pub, 23 + 2 + pub.length) := by
+    unfold unpackVarlenH
+    rw [hdrop]
+    have hb : be16 (UInt8.ofNat (pub.length / 256)) (UInt8.ofNat (pub.length % 256)) = pub.length :=
+      be16_pack _ hl
+    simp [hb]
+  have hlen : (packet ++ sg).length - S.sigLen pub = packet.length := by simp [hn]
+  have hV : E.verifySig E.S pub (packet ++ sg) = some (true, packet.drop (2 + pub.length)) := by
+    have hg : Gen.verifySignature S.toScheme pub (packet ++ sg) = refVerifySignature S.toScheme pub (packet ++ sg) := rfl
+    rw [hv, hES, hg]
+    unfold refVerifySignature
+    have hp : S.toScheme.parse pub = some pub := hH.parse_pub sk
+    simp only [hp]
+    have e1 : S.toScheme.sigLen pub = S.sigLen pub := rfl
+    rw [e1, slice_signed _ _ hpos, slice_sig _ _ hpos, slice_remainder _ _ _ hpos, hlen]
+    simp only [List.take_left', List.drop_left']
+    have : S.toScheme.verify pub packet sg = true := hH.sign_verifies sk packet
+    simp [this]
+  have hD : (packet.drop (2 + pub.length)).drop 23 = body := by
+    rw [List.drop_drop]
+    have h25 : (pfx ++ [m] ++ packVarlenH pub).length = 2 + pub.length + 23 := by
+      simp [hpfx, packVarlenH]; omega
+    have : packet = (pfx ++ [m] ++ packVarlenH pub) ++ body := by simp [packet]
+    rw [this, List.drop_left' h25]
+  exact ⟨_, hU, hV, hD, by rw [hES]; exact hH.parse_pub sk⟩
 
 end Ipv8.C01
